@@ -7,6 +7,7 @@ import (
 	"reflect"
 	"sort"
 	"strings"
+	"time"
 
 	"pgregory.net/rapid"
 	"reservoir/config"
@@ -99,7 +100,7 @@ var Valid = map[string]func(t *rapid.T) any{
 	"proxy.retry_on_range_416":                 func(t *rapid.T) any { return rapid.Bool().Draw(t, "v") },
 	"proxy.retry_on_invalid_range":             func(t *rapid.T) any { return rapid.Bool().Draw(t, "v") },
 	"proxy.cache_policy.ignore_cache_control":  func(t *rapid.T) any { return rapid.Bool().Draw(t, "v") },
-	"proxy.cache_policy.default_max_age":       func(t *rapid.T) any { return rapid.SampledFrom(durations).Draw(t, "v") },
+	"proxy.cache_policy.default_max_age":       drawDuration,
 	"proxy.cache_policy.force_default_max_age": func(t *rapid.T) any { return rapid.Bool().Draw(t, "v") },
 	"webserver.listen":                         func(t *rapid.T) any { return rapid.SampledFrom([]string{"localhost:8080", ":1"}).Draw(t, "v") },
 	"webserver.dashboard_disabled":             func(t *rapid.T) any { return rapid.Bool().Draw(t, "v") },
@@ -108,7 +109,7 @@ var Valid = map[string]func(t *rapid.T) any{
 	"webserver.api_disabled":             func(t *rapid.T) any { return false },
 	"cache.max_cache_size":               func(t *rapid.T) any { return drawBytes(t) },
 	"cache.type":                         func(t *rapid.T) any { return rapid.SampledFrom([]string{"memory", "file"}).Draw(t, "v") },
-	"cache.cleanup_interval":             func(t *rapid.T) any { return rapid.SampledFrom(durations).Draw(t, "v") },
+	"cache.cleanup_interval":             drawDuration,
 	"cache.lock_shards":                  func(t *rapid.T) any { return rapid.SampledFrom([]int{1, 2, 3, 64, 1024, 65536}).Draw(t, "v") },
 	"cache.file.dir":                     func(t *rapid.T) any { return rapid.SampledFrom([]string{"var/cache/", "c", "/tmp/x y/"}).Draw(t, "v") },
 	"cache.memory.memory_budget_percent": func(t *rapid.T) any { return rapid.SampledFrom([]int{1, 50, 75, 100}).Draw(t, "v") },
@@ -118,6 +119,32 @@ var Valid = map[string]func(t *rapid.T) any{
 	"logging.max_backups":                func(t *rapid.T) any { return rapid.SampledFrom([]int{0, 1, 3, 100}).Draw(t, "v") },
 	"logging.compress":                   func(t *rapid.T) any { return rapid.Bool().Draw(t, "v") },
 	"logging.to_stdout":                  func(t *rapid.T) any { return false },
+}
+
+// drawDuration: one of the fixed boundary spellings, or a duration composed of hours, minutes, seconds and a
+// fraction, spelled the way Go prints it, in whole seconds or in whole minutes.
+func drawDuration(t *rapid.T) any {
+	if rapid.IntRange(0, 2).Draw(t, "fixed-duration") == 0 {
+		return rapid.SampledFrom(durations).Draw(t, "v")
+	}
+	d := time.Duration(rapid.SampledFrom([]int{0, 0, 0, 1, 2, 36}).Draw(t, "h"))*time.Hour +
+		time.Duration(rapid.IntRange(0, 59).Draw(t, "m"))*time.Minute +
+		time.Duration(rapid.IntRange(0, 59).Draw(t, "s"))*time.Second +
+		time.Duration(rapid.SampledFrom([]int{0, 0, 0, 1, 250e6, 500e6}).Draw(t, "frac"))
+	if d <= 0 {
+		d = 10 * time.Second
+	}
+	switch rapid.IntRange(0, 3).Draw(t, "spelling") {
+	case 0:
+		if d%time.Second == 0 {
+			return fmt.Sprintf("%ds", d/time.Second)
+		}
+	case 1:
+		if d%time.Minute == 0 {
+			return fmt.Sprintf("%dm", d/time.Minute)
+		}
+	}
+	return d.String()
 }
 
 func drawBytes(t *rapid.T) any {
